@@ -60,8 +60,10 @@ CountLoose(b) == LET rowc(i) == Cardinality({j \in DOMAIN b.loose[i] : b.loose[i
 (* C17: the file name.  A probability k/100 is written as k.               *)
 IsPercent(x) == x.k = "num" /\ x.d = 100
 Pct(x) == ToString(x.n)
+\* seeds beyond 32 bits are carried as decimal text (TLC integers are 32 bit); their number field is 1
+SeedText(p) == IF "seedtxt" \in DOMAIN p THEN p.seedtxt ELSE ToString(p.seed)
 FileName(p) ==
-    "inputs/robot_" \o ToString(p.seed) \o "_w" \o ToString(p.width) \o "_l" \o ToString(p.length)
+    "inputs/robot_" \o SeedText(p) \o "_w" \o ToString(p.width) \o "_l" \o ToString(p.length)
     \o "_r" \o ToString(p.maxr) \o "_rb" \o Pct(p.rb) \o "_lb" \o Pct(p.lb) \o "_tb" \o Pct(p.tb)
     \o "_lt" \o Pct(p.lt) \o (IF p.fd THEN "_force_down" ELSE "") \o ".py"
 WholePercent(p) == IsPercent(p.rb) /\ IsPercent(p.lb) /\ IsPercent(p.tb) /\ IsPercent(p.lt)
